@@ -440,6 +440,9 @@ fn inspections(pool: &[KeyInfo], b: &SBlock, d: &SDir, path: &str, out: &mut Vec
 
 // ------------------------------------------------------------------ running the real code
 
+/// the `TZ` the next verifications run under (`None`: the variable is left alone)
+pub static PROCESS_TZ: std::sync::Mutex<Option<String>> = std::sync::Mutex::new(None);
+
 pub struct Outcome {
     pub answer: String,
     pub ok: bool,
@@ -470,10 +473,54 @@ pub fn run_in(pool: &[KeyInfo], s: &Scenario, base: Option<&Path>, reversed: boo
         Some(p) => b.tempdir_in(p).unwrap(),
         None => b.tempdir().unwrap(),
     };
-    let links = tmp.path().join("links");
-    let cwd = tmp.path().join("cwd");
+    run_at(pool, s, tmp.path(), reversed)
+}
+
+fn regular_files(dir: &Path, rel: &str, out: &mut BTreeMap<String, (u64, std::time::SystemTime)>) {
+    if let Ok(rd) = std::fs::read_dir(dir) {
+        for e in rd.flatten() {
+            let name = e.file_name().to_string_lossy().to_string();
+            let r = if rel.is_empty() { name.clone() } else { format!("{}/{}", rel, name) };
+            if let Ok(md) = std::fs::symlink_metadata(e.path()) {
+                if md.is_dir() {
+                    regular_files(&e.path(), &r, out);
+                } else if md.is_file() {
+                    if let Ok(t) = md.modified() {
+                        out.insert(r, (md.len(), t));
+                    }
+                }
+            }
+        }
+    }
+}
+
+/// The scenario materialised *at a given place* and verified there. Whatever was at that place from an
+/// earlier scenario is replaced - and a file that has the size its predecessor of the same name had also
+/// gets that file's modification time (as `cp -p`, `rsync -t` or a reproducible build leave it): the same
+/// path, size and time, other content. What the verifier answers depends on what the files say now.
+pub fn run_at(pool: &[KeyInfo], s: &Scenario, root: &Path, reversed: bool) -> Outcome {
+    let tmp = root;
+    let links = tmp.join("links");
+    let cwd = tmp.join("cwd");
+    let mut before = BTreeMap::new();
+    regular_files(&links, "", &mut before);
+    let _ = std::fs::remove_dir_all(&links);
+    let _ = std::fs::remove_dir_all(&cwd);
     std::fs::create_dir_all(&cwd).unwrap();
     write_dir_ordered(pool, &s.dir, &links, reversed);
+    if !before.is_empty() {
+        let mut now_there = BTreeMap::new();
+        regular_files(&links, "", &mut now_there);
+        for (rel, (len, _)) in &now_there {
+            if let Some((old_len, old_time)) = before.get(rel) {
+                if old_len == len {
+                    if let Ok(f) = std::fs::OpenOptions::new().write(true).open(links.join(rel)) {
+                        let _ = f.set_modified(*old_time);
+                    }
+                }
+            }
+        }
+    }
     std::fs::write(cwd.join("foo"), b"foo content").unwrap();
     let text = block_text(pool, &s.block);
     let mut keys: HashMap<KeyId, PublicKey> = HashMap::new();
@@ -497,10 +544,19 @@ pub fn run_in(pool: &[KeyInfo], s: &Scenario, base: Option<&Path>, reversed: boo
     }
     let old = std::env::current_dir().unwrap();
     std::env::set_current_dir(&cwd).unwrap();
-    in_toto::verif_hooks::set_now(Some(s.now));
     let links_str = links.to_str().unwrap().to_string();
     let name = s.name.clone();
     let refile = s.mem_refile;
+    // the time zone of the verifying process (`TZ`): an instant is an instant wherever the verifier sits.
+    // chrono reads the variable once per thread and remembers it for a while: a fresh thread per zone.
+    let tz = PROCESS_TZ.lock().unwrap().clone();
+    if let Some(z) = &tz {
+        std::env::set_var("TZ", z);
+    }
+    let now = s.now;
+    let in_thread = tz.is_some();
+    let body = move || {
+    in_toto::verif_hooks::set_now(Some(now));
     let res = guarded(std::panic::AssertUnwindSafe(|| {
         let mut block: Metablock = serde_json::from_str(&text).map_err(|e| format!("parse: {}", e))?;
         if let (Some(kind), MetadataWrapper::Layout(l)) = (refile, &mut block.metadata) {
@@ -518,6 +574,12 @@ pub fn run_in(pool: &[KeyInfo], s: &Scenario, base: Option<&Path>, reversed: boo
         in_toto_verify(&block, keys, &links_str, name.as_deref()).map_err(|e| format!("{}", e))
     }));
     in_toto::verif_hooks::set_now(None);
+    res
+    };
+    let res = if in_thread { std::thread::spawn(body).join().unwrap_or(Err(())) } else { body() };
+    if tz.is_some() {
+        std::env::remove_var("TZ");
+    }
     std::env::set_current_dir(&old).unwrap();
     // events: what the inspection scripts logged
     let log = std::fs::read_to_string(cwd.join("run.log")).unwrap_or_default();
@@ -638,7 +700,6 @@ pub fn run_in(pool: &[KeyInfo], s: &Scenario, base: Option<&Path>, reversed: boo
         op.push_str(&format!(" {}", kid(pool, k)));
     }
     op.push_str(&format!(" {} {} {}", enc_block(pool, &s.block), enc_dir(pool, &s.dir), runs));
-    drop(tmp);
     Outcome { answer, ok, panicked, events, op, summary_extra, top_events_in_order, inspection_material_faults }
 }
 
